@@ -91,6 +91,61 @@ func checkC14(c *Ctx) {
 			}
 		}
 	}
+	// ---- a refused Write leaves the hasher unchanged, and reports at most len(p)
+	c.Rule("C14.atomic", "ATOMIC (L11): in Write of the MiMC digests and of the Merkle-Damgard wrapper no store to the receiver's state (buffered elements, chaining value) can be followed by a return with a non-nil error: the digest is a function of the accepted input only; and the returned count is the length of the caller's slice taken before any padding (io.Writer: 0 <= n <= len(p))", 9)
+	{
+		var ws []*ssa.Function
+		for _, pk := range mimcPkgs {
+			if fn := p.Func(pk, "digest", "Write"); fn != nil {
+				ws = append(ws, fn)
+			}
+		}
+		if fn := p.Func("hash", "merkleDamgardHasher", "Write"); fn != nil {
+			ws = append(ws, fn)
+		}
+		for _, fn := range ws {
+			c.Instance("C14.atomic", 1)
+			recv := fn.Params[0]
+			idx := resultIndex(fn, AcceptNilErr)
+			var writes []ssa.Instruction
+			for _, b := range fn.Blocks {
+				for _, in := range b.Instrs {
+					if st, ok := in.(*ssa.Store); ok && addrDerivedFrom(st.Addr, recv, "...") {
+						writes = append(writes, in)
+					}
+				}
+			}
+			ok := true
+			msg, pos := "", p.Pos(fn.Pos())
+			for _, b := range fn.Blocks {
+				ret, isRet := b.Instrs[len(b.Instrs)-1].(*ssa.Return)
+				if !isRet || b.Comment == "recover" || mayBeNilErr(retValue(ret, idx), b, 0) {
+					continue
+				}
+				for _, w := range writes {
+					if instrMayPrecede(fn, w, ret) {
+						ok = false
+						pos = p.Pos(instrPos(w))
+						msg = funcKey(fn) + ": the hasher's state is written at " + pos + " on a path that ends in the error return at " + p.Pos(instrPos(ret)) + ": a rejected write changes later digests"
+					}
+				}
+			}
+			c.Ob("C14.atomic", relPkg(fnPkgPath(fn)), funcKey(fn), "state-unchanged-on-error", pos, ok, msg)
+			// count: on accepting returns result #0 is len(p0) evaluated on the parameter itself
+			okN := true
+			for _, b := range fn.Blocks {
+				ret, isRet := b.Instrs[len(b.Instrs)-1].(*ssa.Return)
+				if !isRet || !mayBeNilErr(retValue(ret, idx), b, 0) {
+					continue
+				}
+				if !countWithinInput(ret.Results[0], fn.Params[1], 0) {
+					okN = false
+					pos = p.Pos(instrPos(ret))
+				}
+			}
+			c.Ob("C14.atomic", relPkg(fnPkgPath(fn)), funcKey(fn), "count-at-most-len(p)", pos, okN, funcKey(fn)+": the count returned at "+pos+" is not derived from the length of the caller's slice alone (a padded or block-rounded length exceeds len(p): io.Copy panics with 'invalid Write count')")
+		}
+	}
 	// the generic Merkle-Damgard wrapper of package hash (used by every Poseidon2 hasher)
 	c.Instance("C14.alias", 1)
 	for _, name := range []string{"Sum", "State"} {
@@ -402,4 +457,44 @@ func expectedDigestSize(p *Program, pkgRel, kind string) (int64, bool) {
 		return 0, false
 	}
 	return width / 2 * bytes, true
+}
+
+// countWithinInput: v is len(par) of the parameter itself (not of a re-assigned / padded slice),
+// a constant 0, or a phi / sum bounded by those.
+func countWithinInput(v ssa.Value, par *ssa.Parameter, d int) bool {
+	if d > 6 {
+		return false
+	}
+	v = stripConv(v)
+	switch x := v.(type) {
+	case *ssa.Const:
+		k, ok := constInt(x)
+		return ok && k == 0
+	case *ssa.Call:
+		if bi, ok := x.Call.Value.(*ssa.Builtin); ok && bi.Name() == "len" && len(x.Call.Args) == 1 {
+			return stripConv(x.Call.Args[0]) == ssa.Value(par)
+		}
+	case *ssa.Phi:
+		for _, e := range x.Edges {
+			if !countWithinInput(e, par, d+1) {
+				return false
+			}
+		}
+		return len(x.Edges) > 0
+	case *ssa.UnOp:
+		// a local holding the count
+		if a, ok := x.X.(*ssa.Alloc); ok && a.Referrers() != nil {
+			okAll, n := true, 0
+			for _, r := range *a.Referrers() {
+				if st, ok := r.(*ssa.Store); ok && st.Addr == ssa.Value(a) {
+					n++
+					if !countWithinInput(st.Val, par, d+1) {
+						okAll = false
+					}
+				}
+			}
+			return okAll && n > 0
+		}
+	}
+	return false
 }
